@@ -1,6 +1,7 @@
 package main
 
 import (
+	"time"
 	"strconv"
 	"strings"
 
@@ -10,7 +11,10 @@ import (
 
 // itemsWire renders the real lexer's token stream for the model parser.
 func itemsWire(src string, exprMode bool) (string, bool) {
-	items := parse.VerifLex("", src, exprMode, 200000)
+	var items []parse.VerifItem
+	if c := guarded(5*time.Second, func() { items = parse.VerifLex("", src, exprMode, 200000) }); c != "" {
+		return "Error:0:" + hxs(c), false
+	}
 	var parts []string
 	hasFloat := false
 	for _, it := range items {
